@@ -86,6 +86,7 @@ struct Case {
   int ts_mode = 0;
   int speed = 5;
   int order = 0;  // 0: SetTimestamps first, 1: all AddKeyframes first
+  bool builtin = true;  // false: encoder option use_built_in_attribute_compression = false (raw value storage)
   std::vector<Track> tracks;
 };
 
@@ -127,7 +128,7 @@ std::string show_value(int kind, const uint8_t *p) {
 }
 
 std::string show(const Case &c) {
-  std::string s = "frames=" + std::to_string(c.frames) + " timestamps=" + kTsName[c.ts_mode] + " speed=" + std::to_string(c.speed) +
+  std::string s = "frames=" + std::to_string(c.frames) + " timestamps=" + kTsName[c.ts_mode] + " speed=" + std::to_string(c.speed) + (c.builtin ? "" : " built-in-compression=off") +
                   (c.order ? " order=AddKeyframes-then-SetTimestamps" : " order=SetTimestamps-then-AddKeyframes") +
                   " tracks=" + std::to_string(c.tracks.size());
   for (size_t k = 0; k < c.tracks.size(); ++k) {
@@ -291,6 +292,7 @@ void check(const Case &c, mc::Ctx &ctx) {
   // encode
   EncoderOptions options = EncoderOptions::CreateDefaultOptions();
   options.SetSpeed(c.speed, c.speed);
+  if (!c.builtin) options.SetGlobalBool("use_built_in_attribute_compression", false);
   bool any_quant = false;
   for (int k = 0; k < T; ++k)
     if (c.tracks[k].quant > 0) {
@@ -302,6 +304,7 @@ void check(const Case &c, mc::Ctx &ctx) {
   const Status es = encoder.EncodeKeyframeAnimation(anim, options, &buffer);
   ctx.count("encodes");
   ctx.count("encodes:speed" + std::to_string(c.speed));
+  if (!c.builtin) ctx.count("encodes:built-in-compression-off");
   if (!es.ok()) {
     ctx.count("encode_reported_failure");
     ctx.count("encode_reported_failure:" + config_tag(c));
@@ -335,7 +338,7 @@ void check(const Case &c, mc::Ctx &ctx) {
     }
   }
   if (observable) {
-    uint64_t h = mc::hash_combine(c.frames, mc::hash_combine(c.ts_mode, mc::hash_combine(c.speed, c.order)));
+    uint64_t h = mc::hash_combine(c.frames, mc::hash_combine(c.ts_mode, mc::hash_combine(c.speed, c.order * 2 + (c.builtin ? 0 : 1))));
     for (int k = 0; k < T; ++k) {
       h = mc::hash_combine(h, c.tracks[k].kind * 1000 + c.tracks[k].comps * 20 + c.tracks[k].quant);
       h = mc::hash_combine(h, mc::hash_bytes(ref[k].data(), ref[k].size()));
@@ -434,7 +437,13 @@ void add(mc::Runner &R, const std::string &name, uint64_t size, bool quick, bool
   sp.quick = quick;
   sp.thorough = thorough;
   sp.timeout_s = timeout;
-  sp.run = [gen](uint64_t idx, mc::Ctx &ctx) { check(gen(idx), ctx); };
+  sp.run = [gen](uint64_t idx, mc::Ctx &ctx) {
+    // every case with the entropy-coded and with the raw value storage of the integer attribute encoder
+    Case c = gen(idx);
+    check(c, ctx);
+    c.builtin = false;
+    check(c, ctx);
+  };
   sp.describe = [gen](uint64_t idx) { return show(gen(idx)); };
   sp.klass = [gen](uint64_t idx) {
     const Case c = gen(idx);
